@@ -62,7 +62,9 @@ package types
 //@   ensures wf: wf_dec(d)
 //@   let i0 = d.buf.i
 //@   ensures ok: result1 == nil ==> d.buf.i == i0+1 && i0 < int64(len(d.buf.s)) && result0 == d.buf.s[int(i0)]
-//@   ensures eof: result1 != nil ==> d.buf.i == i0 && result0 == 0 && i0 >= int64(len(d.buf.s))
+//@   ensures flag: result1 == nil ==> result0 <= 1
+//@   ensures reject: (i0 >= int64(len(d.buf.s)) || d.buf.s[int(i0)] > 1) ==> result1 != nil
+//@   ensures failed: result1 != nil ==> result0 == 0 && d.buf.i >= i0 && d.buf.i <= i0+1
 //@   assigns d.buf.i, d.buf.prevRune
 
 //@ func (*Decoder).ReadLegnthFlag
